@@ -34,6 +34,9 @@ import (
 // ErrAsyncNoSpace is returned when an write queue full if not writeForever flags.
 var ErrAsyncNoSpace = errors.New("async write queue is full")
 
+// ErrChannelClosed is returned by writes on a channel that was closed without an error.
+var ErrChannelClosed = errors.New("netty: channel closed")
+
 // Channel is defines a server-side-channel & client-side-channel
 type Channel interface {
 	// ID channel id
@@ -175,7 +178,7 @@ func (c *channel) Write(message Message) error {
 	if !c.IsActive() {
 		select {
 		case <-c.ctx.Done():
-			return c.closeErr
+			return c.closedError()
 		}
 	}
 
@@ -230,8 +233,8 @@ func (c *channel) Close(err error) {
 // Writev to write [][]byte for optimize syscall
 func (c *channel) Writev(p [][]byte) (n int64, err error) {
 	verifPoint(c, "w.enter")
-	if nil != c.closeErr {
-		return 0, c.closeErr
+	if !c.IsActive() {
+		return 0, c.closedError()
 	}
 
 	// enable async write
@@ -257,6 +260,10 @@ func (c *channel) Write1(p []byte) (n int, err error) {
 // for synchronous write channels, SetDeadline will be called to ensure that the blocking write operation is interrupted after a timeout.
 func (c *channel) CtxWrite1(ctx context.Context, p []byte) (n int, err error) {
 	verifPoint(c, "w.enter")
+	if !c.IsActive() {
+		return 0, c.closedError()
+	}
+
 	// enable async write
 	if nil != c.writeQueue {
 		wn, err := c.asyncWrite(ctx, p, true)
@@ -285,6 +292,10 @@ func (c *channel) CtxWrite1(ctx context.Context, p []byte) (n int, err error) {
 // for synchronous write channels, SetDeadline will be called to ensure that the blocking write operation is interrupted after a timeout.
 func (c *channel) CtxWritev(ctx context.Context, pv [][]byte) (n int64, err error) {
 	verifPoint(c, "w.enter")
+	if !c.IsActive() {
+		return 0, c.closedError()
+	}
+
 	// enable async write
 	if nil != c.writeQueue {
 		wn, err := c.asyncWritev(ctx, pv)
@@ -312,8 +323,8 @@ func (c *channel) CtxWritev(ctx context.Context, pv [][]byte) (n int64, err erro
 // ReadFrom reads data from r until EOF or error.
 // The return value n is the number of bytes read.
 func (c *channel) ReadFrom(r io.Reader) (n int64, err error) {
-	if nil != c.closeErr {
-		return 0, c.closeErr
+	if !c.IsActive() {
+		return 0, c.closedError()
 	}
 
 	const MinRead = 1024
@@ -355,8 +366,8 @@ func (c *channel) Writer() io.Writer {
 
 func (c *channel) write1(p []byte, clone bool) (n int, err error) {
 	verifPoint(c, "w.enter")
-	if nil != c.closeErr {
-		return 0, c.closeErr
+	if !c.IsActive() {
+		return 0, c.closedError()
 	}
 
 	// enable async write
@@ -398,7 +409,7 @@ func (c *channel) asyncWrite(ctx context.Context, p []byte, clone bool) (int64, 
 		case <-ctx.Done():
 			return 0, ctx.Err()
 		case <-c.ctx.Done():
-			return 0, c.closeErr
+			return 0, c.closedError()
 		case c.writeQueue <- packet:
 			// write queue
 		}
@@ -407,7 +418,7 @@ func (c *channel) asyncWrite(ctx context.Context, p []byte, clone bool) (int64, 
 		case <-ctx.Done():
 			return 0, ctx.Err()
 		case <-c.ctx.Done():
-			return 0, c.closeErr
+			return 0, c.closedError()
 		case c.writeQueue <- packet:
 			// write queue
 		default:
@@ -449,7 +460,7 @@ func (c *channel) asyncWritev(ctx context.Context, p [][]byte) (int64, error) {
 		case <-ctx.Done():
 			return 0, ctx.Err()
 		case <-c.ctx.Done():
-			return 0, c.closeErr
+			return 0, c.closedError()
 		case c.writeQueue <- packet:
 			// write queue
 		}
@@ -458,7 +469,7 @@ func (c *channel) asyncWritev(ctx context.Context, p [][]byte) (int64, error) {
 		case <-ctx.Done():
 			return 0, ctx.Err()
 		case <-c.ctx.Done():
-			return 0, c.closeErr
+			return 0, c.closedError()
 		case c.writeQueue <- packet:
 			// write queue
 		default:
@@ -472,6 +483,15 @@ func (c *channel) asyncWritev(ctx context.Context, p [][]byte) (int64, error) {
 		c.executor.Exec(c.writeOnce)
 	}
 	return dataLen, nil
+}
+
+// closedError is the error reported by writes on a closed channel: the error Close was
+// given, or ErrChannelClosed if that was nil (or is not stored yet).
+func (c *channel) closedError() error {
+	if err := c.closeErr; nil != err {
+		return err
+	}
+	return ErrChannelClosed
 }
 
 // IsActive return true if the Channel is active and so connected
